@@ -31,6 +31,11 @@ def gen_design(rng):
                         'at': (rng.randrange(0, 900), rng.randrange(0, 900)), 'orient': rng.choice(ORIENTS)} for i in range(rng.randrange(0, 6))]
     D['pins'] = [{'name': f'p{i}', 'net': f'p{i}', 'direction': rng.choice(['INPUT', 'OUTPUT']), 'use': 'SIGNAL', 'layer': ('M2', (0, 0), (rng.randrange(1, 9), rng.randrange(1, 9))),
                   'at': (rng.randrange(0, 900), rng.randrange(0, 900)), 'orient': rng.choice(ORIENTS)} for i in range(rng.randrange(0, 5))]
+    for p_ in D['pins']:
+        # a pin with several ports (power / wide pins): one placement per `+ PORT` section, all of them listed in file order
+        if rng.random() < 0.3:
+            p_['ports'] = [((rng.choice(['M4', 'M5']), (0, 0), (rng.randrange(1, 9), rng.randrange(1, 9))), (rng.randrange(0, 900), rng.randrange(0, 900)), rng.choice(ORIENTS))
+                           for _ in range(rng.randrange(2, 4))]
     vianames = [v['name'] for v in D['vias']] or ['via_x']
 
     def route(special):
@@ -104,6 +109,10 @@ def render(D, rng):
         t.append(f'PINS {len(D["pins"])} ;')
         for p in D['pins']:
             l = p['layer']
+            if p.get('ports'):
+                t.append(f'- {p["name"]} + NET {p["net"]} + SPECIAL + DIRECTION {p["direction"]} + USE {p["use"]}' + ''.join(
+                    f'\n  + PORT\n    + LAYER {pl[0]} ( {pl[1][0]} {pl[1][1]} ) ( {pl[2][0]} {pl[2][1]} )\n    + PLACED ( {at[0]} {at[1]} ) {o}' for pl, at, o in p['ports']) + ' ;')
+                continue
             t.append(f'- {p["name"]} + NET {p["net"]} + DIRECTION {p["direction"]} + USE {p["use"]} + LAYER {l[0]} ( {l[1][0]} {l[1][1]} ) ( {l[2][0]} {l[2][1]} ) '
                      f'+ PLACED ( {p["at"][0]} {p["at"][1]} ) {p["orient"]} ;')
         t.append('END PINS')
@@ -190,6 +199,9 @@ def check(D, text):
         for p in D['pins']:
             g = f.pins.get(p['name'])
             if g is None:
+                continue
+            if p.get('ports'):
+                eq('pins:multi-port', (g.net, g.direction, g.use, [tuple(x) for x in g.points]), (p['net'], p['direction'], p['use'], [(at[0], at[1], o) for _, at, o in p['ports']]))
                 continue
             eq('pins:attributes', (g.net, g.direction, g.use, [g.layer[0]] + [tuple(x) for x in g.layer[1:]], [tuple(x) for x in g.points]),
                (p['net'], p['direction'], p['use'], [p['layer'][0], p['layer'][1], p['layer'][2]], [(p['at'][0], p['at'][1], p['orient'])]))
